@@ -31,30 +31,70 @@ theorem Suf.mem {a b : List Nat} (h : Suf a b) {x : Nat} (hx : x ∈ a) : x ∈ 
 /-- no UTF-8 continuation byte -/
 def NoCont (l : List Nat) : Prop := ∀ c ∈ l, isCont c = false
 
-theorem NoCont.suf {a b : List Nat} (h : NoCont b) (hs : Suf a b) : NoCont a :=
-  fun c hc => h c (hs.mem hc)
-
-/-- either panics are allowed, or the list has no continuation byte -/
-def NC (ap : Bool) (l : List Nat) : Prop := ap = true ∨ NoCont l
-
-theorem NC.suf {a b : List Nat} (h : NC ap b) (hs : Suf a b) : NC ap a := h.imp_right (·.suf hs)
-
 theorem NoCont.of_ascii {l : List Nat} (h : ∀ c ∈ l, c < 128) : NoCont l := by
   intro c hc
   have := h c hc
   simp [isCont]
   omega
 
-theorem boundaryAhead_of_noCont {rest : List Nat} (h : NoCont rest) (k : Nat) (hk : k ≤ rest.length) :
-    boundaryAhead rest k = true := by
+/-- Every continuation byte directly follows a non-ASCII byte (true of the bytes of any `str`, and of
+every suffix of them): the fact that keeps `&self.s[start..self.i]` on char boundaries. -/
+def AdjOk : List Nat → Prop
+  | [] => True
+  | [_] => True
+  | a :: b :: r => (isCont b = true → 128 ≤ a) ∧ AdjOk (b :: r)
+
+theorem AdjOk.tail {a : Nat} {l : List Nat} (h : AdjOk (a :: l)) : AdjOk l := by
+  cases l with
+  | nil => trivial
+  | cons b r => exact h.2
+
+theorem AdjOk.suf {a b : List Nat} (h : AdjOk b) (hs : Suf a b) : AdjOk a := by
+  obtain ⟨p, rfl⟩ := hs
+  induction p with
+  | nil => exact h
+  | cons x p ih => exact ih (AdjOk.tail h)
+
+theorem AdjOk.of_noCont {l : List Nat} (h : NoCont l) : AdjOk l := by
+  induction l with
+  | nil => trivial
+  | cons a l ih =>
+    cases l with
+    | nil => trivial
+    | cons b r =>
+      refine ⟨?_, ih (fun c hc => h c (List.mem_cons_of_mem _ hc))⟩
+      intro hb
+      have := h b (by simp)
+      rw [this] at hb
+      cases hb
+
+/-- behind a non-empty run of ASCII bytes there is no continuation byte -/
+theorem AdjOk.after_ascii (tok : List Nat) (b : Nat) (q : List Nat) (h : AdjOk (tok ++ b :: q)) (hne : tok ≠ [])
+    (ha : ∀ x ∈ tok, x < 128) : isCont b = false := by
+  induction tok with
+  | nil => exact absurd rfl hne
+  | cons a t ih =>
+    cases t with
+    | nil =>
+      have h1 := h.1
+      have ha' := ha a (by simp)
+      cases hb : isCont b with
+      | false => rfl
+      | true => have := h1 hb; omega
+    | cons a' t' =>
+      exact ih (AdjOk.tail h) (by simp) (fun x hx => ha x (List.mem_cons_of_mem _ hx))
+
+/-- either panics are allowed, or the bytes are adjacent-ok -/
+def NC (ap : Bool) (l : List Nat) : Prop := ap = true ∨ AdjOk l
+
+theorem NC.suf {a b : List Nat} (h : NC ap b) (hs : Suf a b) : NC ap a := h.imp_right (·.suf hs)
+
+theorem boundaryAhead_zero {rest : List Nat} (h : ∀ c r, rest = c :: r → isCont c = false) :
+    boundaryAhead rest 0 = true := by
   unfold boundaryAhead
-  split
-  · simpa using hk
-  · rename_i c r heq
-    have hc : c ∈ rest := by
-      have : c ∈ rest.drop k := by rw [heq]; simp
-      exact List.mem_of_mem_drop this
-    simp [h c hc]
+  cases rest with
+  | nil => simp
+  | cons c r => simp [h c r rfl]
 
 /-! ## byte-level helpers -/
 
@@ -134,6 +174,95 @@ theorem numLoop_good (eU : RErr) (pre rest : List Nat) (k seen : Nat) (bufR : Li
             intro h; exact h.cons_of c
       · simp [HGood, Suf.refl]
 
+theorem HGood.with_eq {α} {P : α → Prop} {r : HRes α} (h : HGood ap P r) :
+    HGood ap (fun a => P a ∧ r = .ok a) r := by
+  cases r <;> simp_all [HGood]
+
+/-- `buf` only grows -/
+theorem numLoop_buf (eU : RErr) (pre rest : List Nat) (k seen : Nat) (bufR : List Nat) (hv : Bool) (ns : NumSt)
+    (h : numLoop eU pre rest k seen bufR hv = .ok ns) : ∃ x, ns.bufR = x ++ bufR := by
+  induction rest generalizing pre k seen bufR hv with
+  | nil =>
+    simp only [numLoop, HRes.ok.injEq] at h
+    exact ⟨[], by rw [← h]; rfl⟩
+  | cons c r ih =>
+    unfold numLoop at h
+    split at h
+    · split at h
+      · cases h
+      · obtain ⟨x, hx⟩ := ih _ _ _ _ _ h
+        exact ⟨x ++ [c], by simp [hx]⟩
+    · split at h
+      · split at h
+        · split at h
+          · cases h
+          · split at h
+            · cases h
+            · exact ih _ _ _ _ _ h
+        · cases h
+        · cases h
+      · simp only [HRes.ok.injEq] at h
+        exact ⟨[], by rw [← h]; rfl⟩
+
+theorem numLoop_first_digit (eU : RErr) (pre : List Nat) (c : Nat) (r : List Nat) (k seen : Nat) (bufR : List Nat)
+    (hv : Bool) (ns : NumSt) (hc : isDigit c = true)
+    (h : numLoop eU pre (c :: r) k seen bufR hv = .ok ns) : ns.bufR ≠ [] := by
+  unfold numLoop at h
+  simp only [hc, ↓reduceIte] at h
+  split at h
+  · cases h
+  · obtain ⟨x, hx⟩ := numLoop_buf _ _ _ _ _ _ _ _ h
+    rw [hx]; simp
+
+theorem numLoop_dot (eU : RErr) (pre r : List Nat) (k seen : Nat) (bufR : List Nat) (hv : Bool) :
+    numLoop eU pre (46 :: r) k seen bufR hv = .ok ⟨pre, 46 :: r, seen, bufR, hv⟩ := by
+  have h1 : isDigit 46 = false := by decide
+  have h2 : ((46 : Nat) == 95) = false := by decide
+  simp [numLoop, h1, h2]
+
+theorem numFrac_buf (n1 n2 : NumSt) (h : numFrac n1 = .ok n2) :
+    (∃ x, n2.bufR = x ++ n1.bufR) ∧ (∀ r, n1.rest = 46 :: r → n2.bufR ≠ []) := by
+  unfold numFrac at h
+  split at h
+  · rename_i r heq
+    obtain ⟨x, hx⟩ := numLoop_buf _ _ _ _ _ _ _ _ h
+    exact ⟨⟨x ++ [46], by simp [hx]⟩, fun _ _ => by rw [hx]; simp⟩
+  · rename_i hne
+    simp only [HRes.ok.injEq] at h
+    subst h
+    exact ⟨⟨[], rfl⟩, fun r hr => absurd hr (hne r)⟩
+
+theorem expMarker_buf (c : Nat) (pre r bufR : List Nat) : ∃ y, (expMarker c pre r bufR).2.2 = y ++ bufR := by
+  unfold expMarker
+  split
+  · split
+    · exact ⟨[_, c], rfl⟩
+    · exact ⟨[c], rfl⟩
+  · exact ⟨[c], rfl⟩
+
+theorem numExp_buf (n2 n3 : NumSt) (h : numExp n2 = .ok n3) : ∃ x, n3.bufR = x ++ n2.bufR := by
+  unfold numExp at h
+  split at h
+  · split at h
+    · simp only [] at h
+      split at h
+      · rename_i n3' hn
+        split at h
+        · cases h
+        · simp only [HRes.ok.injEq] at h
+          subst h
+          obtain ⟨x, hx⟩ := numLoop_buf _ _ _ _ _ _ _ _ hn
+          obtain ⟨y, hy⟩ := expMarker_buf _ n2.pre _ n2.bufR
+          exact ⟨x ++ y, by rw [hx, hy]; simp⟩
+      · cases h
+      · cases h
+    · simp only [HRes.ok.injEq] at h
+      subst h
+      exact ⟨[], rfl⟩
+  · simp only [HRes.ok.injEq] at h
+    subst h
+    exact ⟨[], rfl⟩
+
 theorem readUint_good (pre rest : List Nat) (v : Fl) (d : Nat) (p : Bool) :
     HGood ap (fun r => Suf r.2.1 rest) (readUint pre rest v d p) := by
   induction rest generalizing pre v d p with
@@ -199,31 +328,11 @@ theorem readFrac_good (pre rest : List Nat) (num sc : Fl) (d : Nat) (p : Bool) :
             intro h; exact h.cons_of c
       · split <;> simp [HGood, Suf.refl]
 
-/-- the two char-boundary tests of a `&self.s[i..j]` slice pass, unless panics are allowed -/
-theorem boundary_cases {a b : List Nat} (ha : NC ap a) (hb : NC ap b) (j k : Nat) (hj : j ≤ a.length) (hk : k ≤ b.length) :
-    (boundaryAhead a j && boundaryAhead b k) = true ∨ ap = true := by
-  cases ha with
-  | inl h => exact Or.inr h
-  | inr ha =>
-    cases hb with
-    | inl h => exact Or.inr h
-    | inr hb =>
-      left
-      rw [boundaryAhead_of_noCont ha j hj, boundaryAhead_of_noCont hb k hk]
-      rfl
-
-theorem startsCi_good {rest : List Nat} (h : NC ap rest) (kw : List Nat) :
-    HGood ap (fun b => b = true → kw.length ≤ rest.length) (startsCi rest kw) := by
-  unfold startsCi
-  split
-  · simp [HGood]
-  · rename_i hlen
-    have hl : kw.length ≤ rest.length := by omega
-    by_cases hb : (boundaryAhead rest 0 && boundaryAhead rest kw.length) = true
-    · simp [hb, HGood, hl]
-    · cases boundary_cases h h 0 kw.length (by omega) hl with
-      | inl h' => exact absurd h' hb
-      | inr h' => simp [hb, HGood, h']
+theorem startsCi_len {rest kw : List Nat} (h : startsCi rest kw = true) : kw.length ≤ rest.length := by
+  unfold startsCi at h
+  split at h
+  · cases h
+  · omega
 
 theorem advN_good (n : Nat) (pre rest : List Nat) (hn : n ≤ rest.length) :
     HGood ap (fun pr => Suf pr.2 rest) (advN n pre rest) := by
@@ -387,22 +496,19 @@ theorem numExp_good (n2 : NumSt) : HGood ap (fun n3 : NumSt => Suf n3.rest n2.re
     · simp [HGood, Suf.refl]
   · simp [HGood, Suf.refl]
 
-theorem parseNumberOrSpecial_good (tag : Nat) (st : St) (hn : NC ap st.rest) :
+theorem parseNumberOrSpecial_good (tag : Nat) (st : St)
+    (hc : ∃ c r, st.rest = c :: r ∧ (isDigit c = true ∨ c = 46)) :
     Good ap st (parseNumberOrSpecial tag st) := by
   rw [good_iff]
   unfold parseNumberOrSpecial
-  refine GoodH.bind (lift_good st (startsCi_good hn _)) ?_
-  intro isInf hInf
   split
   · rename_i hT
-    refine GoodH.bind (lift_good st (advN_good 4 _ _ (by simpa using hInf hT))) ?_
+    refine GoodH.bind (lift_good st (advN_good 4 _ _ (by simpa using startsCi_len hT))) ?_
     rintro ⟨p, r⟩ hpr
     exact ⟨hpr, rfl, rfl⟩
-  · refine GoodH.bind (lift_good st (startsCi_good hn _)) ?_
-    intro isNan hNan
-    split
+  · split
     · rename_i hT
-      refine GoodH.bind (lift_good st (advN_good 4 _ _ (by simpa using hNan hT))) ?_
+      refine GoodH.bind (lift_good st (advN_good 4 _ _ (by simpa using startsCi_len hT))) ?_
       rintro ⟨p, r⟩ hpr
       exact ⟨hpr, rfl, rfl⟩
     · refine GoodH.bind (trySexagesimal_good tag st) ?_
@@ -411,28 +517,36 @@ theorem parseNumberOrSpecial_good (tag : Nat) (st : St) (hn : NC ap st.rest) :
       · rename_i res
         obtain ⟨ev, st'⟩ := res
         exact hsx ev st' rfl
-      · refine GoodH.bind (lift_good st (numLoop_good _ _ _ 0 0 [] false (by simp))) ?_
-        intro n1 h1
-        refine GoodH.bind (lift_good st (numFrac_good n1)) ?_
-        intro n2 h2'
+      · refine GoodH.bind (lift_good st (numLoop_good _ _ _ 0 0 [] false (by simp)).with_eq) ?_
+        intro n1 ⟨h1, e1⟩
+        refine GoodH.bind (lift_good st (numFrac_good n1).with_eq) ?_
+        intro n2 ⟨h2', e2⟩
         have h2 : Suf n2.rest st.rest := h2'.trans h1
-        refine GoodH.bind (lift_good st (numExp_good n2)) ?_
-        · intro n3 h3'
+        refine GoodH.bind (lift_good st (numExp_good n2).with_eq) ?_
+        · intro n3 ⟨h3', e3⟩
           have h3 : Suf n3.rest st.rest := h3'.trans h2
+          -- `buf` is not empty: the first byte was a digit or the '.'
+          have hb2 : n2.bufR ≠ [] := by
+            obtain ⟨c, r, hr, hcd⟩ := hc
+            rw [hr] at e1
+            rcases hcd with hd | h46
+            · have := numLoop_first_digit _ _ _ _ _ _ _ _ _ hd e1
+              obtain ⟨x, hx⟩ := (numFrac_buf n1 n2 e2).1
+              rw [hx]; intro hh; exact this (List.append_eq_nil_iff.mp hh).2
+            · subst h46
+              rw [numLoop_dot] at e1
+              simp only [HRes.ok.injEq] at e1
+              exact (numFrac_buf n1 n2 e2).2 r (by rw [← e1])
+          have hb3 : n3.bufR.isEmpty = false := by
+            obtain ⟨x, hx⟩ := numExp_buf n2 n3 e3
+            cases hn3 : n3.bufR with
+            | nil => rw [hn3] at hx; exact absurd (List.append_eq_nil_iff.mp hx.symm).2 hb2
+            | cons _ _ => rfl
           show GoodH ap st _ _
-          simp only []
+          simp only [hb3, Bool.false_eq_true, ↓reduceIte]
           split
-          · by_cases hb : (boundaryAhead st.rest 0 && boundaryAhead n3.rest 0) = true
-            · simp only [hb, Bool.not_true, Bool.false_eq_true, ↓reduceIte]
-              split
-              · exact ⟨h3, rfl, rfl⟩
-              · simp [GoodH, St.err]
-            · cases boundary_cases hn (hn.suf h3) 0 0 (by omega) (by omega) with
-              | inl h' => exact absurd h' hb
-              | inr h' => simp [hb, GoodH, h']
-          · split
-            · exact ⟨h3, rfl, rfl⟩
-            · simp [GoodH, St.err]
+          · exact ⟨h3, rfl, rfl⟩
+          · simp [GoodH, St.err]
 
 theorem enter_good (st : St) :
     GoodH ap st (fun st1 => st1.rest = st.rest ∧ st1.depth = st.depth + 1 ∧ st1.sexTime = st.sexTime ∧
@@ -476,8 +590,44 @@ theorem exitAfter_good (st st1 : St) (r : Res (Eval × St)) (h : Good ap st1 r) 
 def EGood (ap : Bool) (E : St → Res (Eval × St)) (D : Nat) (lf : Nat) : Prop :=
   D < MAX_EXPR_DEPTH → ∀ st1 : St, st1.depth = D + 1 → NC ap st1.rest → st1.rest.length < lf → Good ap st1 (E st1)
 
+theorem identStart_facts (c : Nat) (h : isIdentStart c = true) :
+    isIdentCont c = true ∧ isCont c = false ∧ c < 128 := by
+  simp only [isIdentStart, isAlpha, Bool.or_eq_true, Bool.and_eq_true, decide_eq_true_eq, beq_iff_eq] at h
+  refine ⟨?_, ?_, by omega⟩
+  · simp only [isIdentCont, isAlpha, isDigit, Bool.or_eq_true, Bool.and_eq_true, decide_eq_true_eq, beq_iff_eq]
+    omega
+  · simp only [isCont, Bool.and_eq_false_iff, decide_eq_false_iff_not]
+    omega
+
+theorem identCont_lt (c : Nat) (h : isIdentCont c = true) : c < 128 := by
+  simp only [isIdentCont, isAlpha, isDigit, Bool.or_eq_true, Bool.and_eq_true, decide_eq_true_eq, beq_iff_eq] at h
+  omega
+
+/-- the identifier scan consumes identifier bytes only, and at least the first one if it is one -/
+theorem identLoop_tok (pre rest acc : List Nat) :
+    ∃ tok, rest = tok ++ (identLoop pre rest acc).2.1 ∧ (∀ x ∈ tok, x < 128) ∧
+      (∀ c r, rest = c :: r → isIdentCont c = true → tok ≠ []) := by
+  induction rest generalizing pre acc with
+  | nil => exact ⟨[], rfl, (by intro x hx; cases hx), (by intro c r h; cases h)⟩
+  | cons c r ih =>
+    unfold identLoop
+    split
+    · rename_i hc
+      obtain ⟨tok, h1, h2, _⟩ := ih (c :: pre) (c :: acc)
+      refine ⟨c :: tok, by rw [List.cons_append, ← h1], ?_, by intro _ _ _ _; simp⟩
+      intro x hx
+      cases hx with
+      | head => exact identCont_lt c hc
+      | tail _ h => exact h2 x h
+    · rename_i hc
+      refine ⟨[], rfl, (by intro x hx; cases hx), ?_⟩
+      intro c' r' h hc'
+      cases h
+      exact absurd hc' hc
+
 theorem parseIdentOrSpecial_good (E : St → Res (Eval × St)) (lf : Nat) (st : St) (hE : EGood ap E st.depth lf)
-    (hn : NC ap st.rest) (hl : st.rest.length < lf) :
+    (hn : NC ap st.rest) (hl : st.rest.length < lf)
+    (hh : ∃ c r, st.rest = c :: r ∧ isIdentStart c = true) :
     Good ap st (parseIdentOrSpecial E st) := by
   rw [good_iff]
   unfold parseIdentOrSpecial
@@ -485,9 +635,25 @@ theorem parseIdentOrSpecial_good (E : St → Res (Eval × St)) (lf : Nat) (st : 
   have hil : Suf (identLoop st.pre st.rest []).2.1 st.rest := identLoop_suf _ _ _
   by_cases hb : (boundaryAhead st.rest 0 && boundaryAhead (identLoop st.pre st.rest []).2.1 0) = true
   case neg =>
-    cases boundary_cases hn (hn.suf hil) 0 0 (by omega) (by omega) with
-    | inl h' => exact absurd h' hb
-    | inr h' => simp [hb, GoodH, h']
+    cases hn with
+    | inl h' => simp [hb, GoodH, h']
+    | inr hadj =>
+      exfalso
+      apply hb
+      obtain ⟨c, r, hr, hc⟩ := hh
+      obtain ⟨hcc, hnc, _⟩ := identStart_facts c hc
+      obtain ⟨tok, ht1, ht2, ht3⟩ := identLoop_tok st.pre st.rest []
+      have hne : tok ≠ [] := ht3 c r hr hcc
+      rw [Bool.and_eq_true]
+      constructor
+      · apply boundaryAhead_zero
+        intro c' r' h
+        rw [hr] at h; cases h; exact hnc
+      · apply boundaryAhead_zero
+        intro b q hbq
+        rw [hbq] at ht1
+        rw [ht1] at hadj
+        exact AdjOk.after_ascii tok b q hadj hne ht2
   simp only [hb, Bool.not_true, Bool.false_eq_true, ↓reduceIte]
   split
   · exact ⟨hil, rfl, rfl⟩
@@ -583,9 +749,11 @@ theorem primary_good (tag : Nat) (E : St → Res (Eval × St)) (lf : Nat) (st0 :
         · simp only [GoodH, St.err, St.adv, skipWs_depth]; omega
         · simp only [GoodH, St.err, skipWs_depth]; omega
     · split
-      · exact parseNumberOrSpecial_good tag st hn'
+      · rename_i hcd
+        exact parseNumberOrSpecial_good tag st ⟨c, r, heq, by simpa [Bool.or_eq_true] using hcd⟩
       · split
-        · exact parseIdentOrSpecial_good E lf st (by rw [hd]; exact hE) hn' hl'
+        · rename_i hci
+          exact parseIdentOrSpecial_good E lf st (by rw [hd]; exact hE) hn' hl' ⟨c, r, heq, hci⟩
         · simp [Good, St.err]
 
 theorem unary_good (tag : Nat) (E : St → Res (Eval × St)) (lf : Nat) (st0 : St) (hE : EGood ap E st0.depth lf)
@@ -751,5 +919,72 @@ theorem evalExpr_good (tag : Nat) (s : List Nat) (hn : NC ap s) : TopGood ap (ev
   | err e d => intro _; simp [Res.bind, TopGood]
   | panic p => intro h; simpa [Res.bind, TopGood, Good] using h
   | fuel => intro h; simp [Good] at h
+
+
+/-! ## the bytes of a `str` -/
+
+def HeadOk (l : List Nat) : Prop := ∀ c r, l = c :: r → isCont c = false
+
+theorem AdjOk.append {a b : List Nat} (ha : AdjOk a) (hb : AdjOk b) (hh : HeadOk b) : AdjOk (a ++ b) := by
+  induction a with
+  | nil => exact hb
+  | cons x a ih =>
+    cases a with
+    | nil =>
+      cases b with
+      | nil => trivial
+      | cons y r =>
+        refine ⟨?_, hb⟩
+        intro hy
+        rw [hh y r rfl] at hy
+        cases hy
+    | cons x' a' => exact ⟨ha.1, ih ha.2⟩
+
+theorem utf8_char_ok (c : Char) : AdjOk (utf8 [c]) ∧ HeadOk (utf8 [c]) ∧ utf8 [c] ≠ [] := by
+  simp only [utf8, List.flatMap_cons, List.flatMap_nil, List.append_nil]
+  split
+  · rename_i h
+    refine ⟨trivial, ?_, by simp⟩
+    intro x r hx
+    cases hx
+    simp only [isCont, Bool.and_eq_false_iff, decide_eq_false_iff_not]
+    omega
+  · split
+    · refine ⟨⟨by intro _; omega, trivial⟩, ?_, by simp⟩
+      intro x r hx
+      cases hx
+      simp only [isCont, Bool.and_eq_false_iff, decide_eq_false_iff_not]
+      omega
+    · split
+      · refine ⟨⟨by intro _; omega, by intro _; omega, trivial⟩, ?_, by simp⟩
+        intro x r hx
+        cases hx
+        simp only [isCont, Bool.and_eq_false_iff, decide_eq_false_iff_not]
+        omega
+      · refine ⟨⟨by intro _; omega, by intro _; omega, by intro _; omega, trivial⟩, ?_, by simp⟩
+        intro x r hx
+        cases hx
+        simp only [isCont, Bool.and_eq_false_iff, decide_eq_false_iff_not]
+        omega
+
+theorem utf8_cons (c : Char) (cs : List Char) : utf8 (c :: cs) = utf8 [c] ++ utf8 cs := by
+  simp [utf8]
+
+/-- the UTF-8 bytes of any string: continuation bytes only behind non-ASCII bytes, none in front -/
+theorem utf8_ok (cs : List Char) : AdjOk (utf8 cs) ∧ HeadOk (utf8 cs) := by
+  induction cs with
+  | nil => exact ⟨trivial, by intro c r h; simp [utf8] at h⟩
+  | cons c cs ih =>
+    obtain ⟨h1, h2, h3⟩ := utf8_char_ok c
+    rw [utf8_cons]
+    refine ⟨h1.append ih.1 ih.2, ?_⟩
+    intro x r hx
+    cases hu : utf8 [c] with
+    | nil => exact absurd hu h3
+    | cons y q =>
+      rw [hu] at hx
+      simp only [List.cons_append, List.cons.injEq] at hx
+      rw [← hx.1]
+      exact h2 y q hu
 
 end SaphyrVerif.Lemmas.C19
